@@ -739,6 +739,20 @@ func (e *SEnv) evalCallSX(sx *SX) Val {
 			st.assume(fmt.Sprintf("(forall ((k Int)) (! (=> (select %s k) (exists ((j Int)) (and (<= 0 j) (< j %s) (= (select %s (at %s j)) k)))) :pattern ((select %s k))))", t, n.T, inner, off, t))
 		}
 		return Val{T: t, S: "(Array Int Bool)"}
+	case "pow2m1":
+		// pow2m1(n) = 2^n - 1 (uninterpreted; the recurrence is instantiated for ground arguments)
+		if !argn(1) {
+			break
+		}
+		n := e.eval(sx.Args[0])
+		t := app("pow2m1", n.T)
+		if len(e.bound) == 0 {
+			e.st.assume(app("=", app("pow2m1", "0"), "0"))
+			e.st.assume(app("=>", app(">=", n.T, "0"), app(">=", t, "0")))
+			e.st.assume(app("=>", app(">=", n.T, "1"), app("=", t, app("+", app("*", "2", app("pow2m1", app("-", n.T, "1"))), "1"))))
+			e.st.assume(app("=>", app(">=", n.T, "0"), app("=", app("pow2m1", app("+", n.T, "1")), app("+", app("*", "2", t), "1"))))
+		}
+		return Val{T: t, S: "Int"}
 	case "lsum":
 		// lsum(s, n): sum of the first n elements of slice s
 		if !argn(2) {
